@@ -21,6 +21,7 @@ import PoetryVerif.Proofs.ParserTotalSimp2
 import PoetryVerif.Proofs.ParserTotalConv
 import PoetryVerif.Proofs.ParserTotalComment
 import PoetryVerif.Proofs.ParserTotalLex
+import PoetryVerif.Proofs.ParserTotalRewrite
 
 /-! # Part I — versions, string constraints, markers -/
 /-!
@@ -1683,7 +1684,10 @@ The simplifier part: `MergeNoSyntax` (the leaf merge returns invariant leaves an
 PROVED for markers that do not mention BOTH `python_version` and `python_full_version` (`merge_no_syntax_no_pv`,
 `merge_no_syntax_no_pfv` — the latter uses the version-text invariant of Proofs/ParserTotalVC5.lean), which removes
 the hypothesis from the `*_not_both` statements for `parse_marker` and `Requirement`; it stays a named hypothesis
-for markers holding both variables (the rewriting of a merged `python_full_version` marker, (a3)).
+for markers holding both variables (the rewriting of a merged `python_full_version` marker, (a3)): the rewritten text
+itself is shown to be readable (`py_rewrite_text_reparses`, all but the `.0`-dropping case); carrying the needed
+invariant on python-named leaves (operator a grammar operator, plain `y`-free value, not swapped unless `in`/`not in`)
+through the merge is what is left.
 * `~=` items: inverting them prints the bounds of the parsed constraint, whose texts are made of version characters
   (Proofs/ParserTotalVC5.lean) — so `invert` of the un-simplified marker of EVERY accepted text is free of lark's
   error (`invert_no_syntax_grammar_all`).
@@ -1973,6 +1977,31 @@ example : parseText "python_version >= \"3.8\" and (sys_platform != \"x\" or ext
     SynNotBothPy (.more (.item "python_version" ">=" "3.8" false) false (.one (.paren (.more
         (.item "sys_platform" "!=" "x" false) true (.one (.item "extra" "==" "y" false)))))) = true :=
   ⟨by decide +kernel, by decide⟩
+
+/-! ## (a3) the rewritten `python_full_version` text -/
+
+/-- **The text `_merge_python_version_single_markers` rewrites is read back by the grammar** (`pyRewrite ms` is the
+`str'` of the model's `mergePythonVersion`): for a non-swapped `python_full_version` marker with a grammar operator and
+a plain value without the letter `y` (so that `str.replace("python_full_version", "python_version")` cannot touch the
+value — a local version label such as `+python_full_version` could), in the two `.0`-padding cases and the unchanged
+case; the item read back is on `python_version` / `python_full_version`, with the same operator and a plain value.
+The `.0`-dropping case (`DropsZero ms`: precision 3, `<` / `>=`, value ending in `.0`) is not covered. -/
+theorem py_rewrite_text_reparses (ms : Single) (hname : ms.name = "python_full_version") (hsw : ms.swapped = false)
+    (hop : ms.op ∈ ops) (hv : PlainStr ms.value) (hy : 'y' ∉ ms.value.toList) (hnz : ¬ DropsZero ms) :
+    ∃ n v, (n = "python_version" ∨ n = "python_full_version") ∧ PlainStr v ∧ 'y' ∉ v.toList ∧
+      parseText (pyRewrite ms) = .ok (.one (.item n ms.op v false)) :=
+  pyRewrite_parses ms hname hsw hop hv hy hnz
+
+/-- … so re-parsing it fails with `ValueError` / `.unmodelled` at most, never with lark's error -/
+theorem py_rewrite_no_syntax (ms : Single) (hname : ms.name = "python_full_version") (hsw : ms.swapped = false)
+    (hop : ms.op ∈ ops) (hv : PlainStr ms.value) (hy : 'y' ∉ ms.value.toList) (hnz : ¬ DropsZero ms) (e : PyErr)
+    (h : parseItemMarker (pyRewrite ms) = .error e) : e = .value ∨ e = .unmodelled :=
+  parseItemMarker_pyRewrite_no_syntax vc_err_documented ms hname hsw hop hv hy hnz e h
+
+example : parseText (pyRewrite ⟨"python_full_version", ">=", "3.8", false, .gen .any⟩) =
+    .ok (.one (.item "python_version" ">=" "3.8" false)) := by decide +kernel
+example : parseText (pyRewrite ⟨"python_full_version", "==", "3.8", false, .gen .any⟩) =
+    .ok (.one (.item "python_full_version" "==" "3.8.0" false)) := by decide +kernel
 
 end Poetry.C19
 
